@@ -10,6 +10,11 @@ def run(ctx, replay):
     trace = ctx.path("c15.ndjson")
     racelog = ctx.path("race")
     r = ctx.drive(drv, ["c15", trace], timeout=1500, env={"GORACE": "halt_on_error=0 exitcode=0 log_path=" + racelog})
+    # the same pool once more in a fresh process, in the opposite order
+    trace2 = ctx.path("c15_rev.ndjson")
+    ctx.drive(drv, ["c15", trace2, "reverse"], timeout=900, env={"GORACE": "halt_on_error=0 exitcode=0 log_path=" + racelog})
+    with open(trace, "a") as f:
+        f.write(open(trace2).read())
     events = vlib.read_ndjson(trace)
     if len(events) < 100:
         raise vlib.Inconclusive("driver produced too few events")
@@ -39,9 +44,9 @@ def run(ctx, replay):
         ctx.violation(dict(kind="data-race", where=where[0] if where else "?"), dict(report=rep[:6000]))
     return ctx.finish(
         level="model_checking",
-        rule="one case = (frame of the pool, log level, context): fresh handler, after every other frame in seeded random orders on one handler, immediate repetition, "
+        rule="one case = (frame of the pool, log level, context): fresh handler, a second fresh process meeting the frames in the opposite order, after every other frame in seeded random orders on one handler, immediate repetition, "
              "8 handlers in parallel goroutines each displaying two by-value copies of every message concurrently (race detector on), and the real appcore fan-out where "
-             "consumer 1 displays and overwrites every field of its own copy before consumer 2 looks; pool = 1005/1006, MSM4/MSM7 of all constellations and mask shapes, "
+             "consumer 1 displays and overwrites every field of its own copy before consumer 2 looks; pool = 1005/1006, MSM4/MSM7 of all constellations and mask shapes incl. near-twin frames (same cell-mask bits with transposed shape, same masks with other data, same payload under another constellation), "
              "1230/other/unknown types, junk, malformed CRC-valid MSM, CRC failures; distinct = distinct (key, scenario, text digest)",
         assumptions=["text is compared after removing the two MSM time lines ('Time ...', 'Start of ...')",
                      "decoded fields are compared as a digest of the JSON encoding of the exported fields of Message.Readable",
